@@ -164,7 +164,7 @@ EVALUATORS = {"lrutrie_history": eval_history}
 SMALL = ["http://a.com", "http://a.com/", "http://a.com/x", "http://a.com/x/", "http://a.com/x/y", "http://a.com//x",
          "http://a.com/x?q=1", "http://a.com/x#f", "http://a.com/x?q=1#f", "http://b.a.com", "http://b.a.com/x",
          "https://a.com", "https://a.com/x", "http://a.com:8080", "http://a.com:8080/x", "http://com", "http://a.co.uk",
-         "http://b.a.co.uk/x", "http://co.uk", "http://a.com/xy", "http://a.com/x|y?q=1|2", "http://a.com/x?q=1|"]
+         "http://b.a.co.uk/x", "http://co.uk", "http://a.com/xy", "http://a.com/x|y?q=1|2", "http://a.com/x?q=1|", "http://a.com:0", "http://a.com:0/x"]
 SMALL_Q = SMALL + ["http://c.b.a.com/x/y/z?q=1#f", "http://a.com/x/y/z", "http://A.com/x", "http://www.a.com/x", "a.com/x",
                    "http://a.com/X", "http://x.co.uk", "http://a.com:8080/x/y", "https://b.a.com/x", "http://a.com/x/?q=1",
                    "http://a.com/x//y", "http://ab.com", "http://a.com/?q=1", "http://a.com/#f", "http://uk",
@@ -246,7 +246,7 @@ KW = {
 
 def _strategy(tier):
     url = st.tuples(st.sampled_from(["http://", "https://", "http://", ""]), st.sampled_from(BIG_HOSTS),
-                    st.sampled_from(["", "", ":8080", ":80"]), st.sampled_from(BIG_PATHS), st.sampled_from(BIG_TAILS)).map("".join)
+                    st.sampled_from(["", "", ":8080", ":80", ":0", ":080"]), st.sampled_from(BIG_PATHS), st.sampled_from(BIG_TAILS)).map("".join)
 
     @st.composite
     def hist(draw):
